@@ -26,6 +26,8 @@ class Recorder:
         self.ev = []
         self.pending = []       # text pieces since the last structural call: (text, wild)
         self.calls = 0
+        self.doc = None         # the document, when the stream writes to an in-memory file
+        self.aborted = False    # a call raised: nothing after it is recorded
 
     def flush(self):
         if self.pending:
@@ -62,7 +64,7 @@ def record_xml_streams():
             nested = self.__dict__['_verif_depth'] > 0     # calls made by the class itself (e.g. __exit__ -> endElement)
             self.__dict__['_verif_depth'] += 1
             try:
-                if not nested:
+                if not nested and not r.aborted:
                     if name == '__enter__':
                         r.add(dict(op='enter'))
                     elif name == 'startElement':
@@ -86,7 +88,22 @@ def record_xml_streams():
                     elif name == '__exit__':
                         r.flush()
                         r.add(dict(op='exit'))
-                return fn(self, *a, **k)
+                try:
+                    ret = fn(self, *a, **k)
+                except BaseException:
+                    if not nested and not r.aborted:
+                        r.aborted = True
+                        if r.ev and name != '__exit__':
+                            r.ev.pop()              # the call did not take effect
+                    raise
+                if not nested and name == '__exit__':
+                    f_ = self.__dict__.get('_file')
+                    if hasattr(f_, 'getvalue'):
+                        try:
+                            r.doc = f_.getvalue()
+                        except Exception:
+                            r.doc = None
+                return ret
             finally:
                 self.__dict__['_verif_depth'] -= 1
         return w
